@@ -1,6 +1,7 @@
 import NemoVerif.Drive.Common
 import NemoVerif.Models.Bind
 import NemoVerif.Models.BindHeap
+import NemoVerif.Models.BindActivate
 
 namespace NemoVerif.Drive.C08
 open Lean NemoVerif NemoVerif.Drive NemoVerif.Bind
@@ -187,6 +188,47 @@ def handle (op : String) (j : Json) : Except String Json := do
       ("globals", ctxToJson (derefCtx s.heap s.st.globals)),
       ("entries", Json.arr (s.entries.map fun e => Json.arr #[Json.num (JsonNumber.fromNat e.uid), .str e.flow,
           ctxToJson e.ctx]).toArray)])
+  | "refact" =>
+    -- `_get_reference_activated_flow_instance` on instances that the model's own `createFlowInstance` makes from the
+    -- creating calls, then (when a source flow is given) the StartFlow decision
+    let params ← listOfJson paramOfJson (← j.getObjVal? "params")
+    let ev ← ctxOfJson (← j.getObjVal? "ev")
+    let instsJ ← (← j.getObjVal? "insts").getArr?
+    let insts ← instsJ.toList.mapM fun ij => do
+      let iev ← ctxOfJson (← ij.getObjVal? "ev")
+      let activated ← (← ij.getObjVal? "activated").getNat?
+      let alive ← (← ij.getObjVal? "parentAlive").getBool?
+      let same ← (← ij.getObjVal? "parentSame").getBool?
+      match createFlowInstance "f" params [] iev with
+      | .error e => throw s!"instance creation failed: {errToString e}"
+      | .ok f => pure ({ activated, parentAlive := alive, parentSameFlow := same, arguments := f.arguments } : ActInst)
+    let optIdx : Option Nat → Json := fun o => match o with | some i => Json.num (JsonNumber.fromNat i) | none => .null
+    let refJ := match refActivated params ev insts 0 with
+      | .error e => Json.str ("err:" ++ errToString e)
+      | .ok r => optIdx r
+    let decJ ← match j.getObjVal? "src" with
+      | .ok (.obj _) => do
+        let sj ← j.getObjVal? "src"
+        let src : Source := { flowId := ← (← sj.getObjVal? "flow").getStr?, done := ← (← sj.getObjVal? "done").getBool?,
+                              activated := ← (← sj.getObjVal? "activated").getNat? }
+        let known := match j.getObjVal? "known" with | .ok (.bool b) => b | _ => true
+        pure (match startDecision "f" params ev (if known then some insts else none) src with
+          | .error e => Json.str ("err:" ++ errToString e)
+          | .ok .ignored => Json.str "ignored"
+          | .ok (.reuse i) => Json.arr #[.str "reuse", optIdx (some i)]
+          | .ok (.create o) => Json.arr #[.str "create", optIdx o])
+      | _ => pure Json.null
+    -- the whole step on `flow_id_states[f]` (`activateStepEv`): activation counters and arguments of every instance afterwards
+    let stepJ ← match j.getObjVal? "src" with
+      | .ok (.obj _) => do
+        let sj ← j.getObjVal? "src"
+        let src : Source := { flowId := ← (← sj.getObjVal? "flow").getStr?, done := ← (← sj.getObjVal? "done").getBool?,
+                              activated := ← (← sj.getObjVal? "activated").getNat? }
+        pure (match activateStepEv "f" params [] src insts ev with
+          | .error e => Json.str ("err:" ++ errToString e)
+          | .ok l => Json.arr (l.map fun a => Json.arr #[Json.num (JsonNumber.fromNat a.activated), ctxToJson a.arguments]).toArray)
+      | _ => pure Json.null
+    pure (Json.mkObj [("ref", refJ), ("decision", decJ), ("after", stepJ)])
   | _ => throw s!"unknown op C08.{op}"
 
 end NemoVerif.Drive.C08
